@@ -153,7 +153,8 @@ Record c10_case : Type := mk_c10 {
   q_batched_rows : list (nat * list nat); (* per caller: result code, positions (in q_contents) of its rows *)
   q_single_stmts : list obs_event;      (* statements of the same calls without batching, per caller *)
   q_single_rows : list (nat * list nat);
-  q_transparent : list bool             (* per caller: the harness's own decision of [filter_transparent] *)
+  q_transparent : list bool;            (* per caller: the harness's own decision of [filter_transparent] *)
+  q_fixed : bool                        (* the tree under test has C10-fix-2 (probed by the harness) *)
 }.
 
 Fixpoint filter_idx {A : Type} (p : A -> bool) (l : list A) (i : nat) : list nat :=
@@ -220,7 +221,12 @@ Definition model_single_rows (t : table) (fs : list filter) (cs : list c10_calle
     (apply_opts contents (nth_caller_opts cs i)
        (filter_idx (fun r => is_tt (eval_simple (dfilter_of t f) r)) contents 0)).
 
-Definition model_batched_rows (t : table) (fs : list filter) (cs : list c10_caller) (arrival : list (list nat))
+Definition mm_of (fixed : bool) : table -> filter -> drow -> bool :=
+  if fixed then matcher_matches_fixed else matcher_matches.
+Definition transparent_of (fixed : bool) : table -> filter -> bool :=
+  if fixed then filter_transparent_fixed else filter_transparent.
+
+Definition model_batched_rows (fixed : bool) (t : table) (fs : list filter) (cs : list c10_caller) (arrival : list (list nat))
            (contents : list drow) (i : nat) : option (nat * list nat) :=
   match nth_caller_opts cs i with
   | Some _ => model_single_rows t fs cs contents i          (* a statement of its own *)
@@ -230,7 +236,7 @@ Definition model_batched_rows (t : table) (fs : list filter) (cs : list c10_call
       | Some b =>
           let w := batch_wclause t (map (nth_filter fs) b) in
           Some (call_result (nth_caller_row cs i)
-                  (filter_idx (fun r => is_tt (eval_wclause w r) && matcher_matches t (nth_filter fs i) r) contents 0))
+                  (filter_idx (fun r => is_tt (eval_wclause w r) && mm_of fixed t (nth_filter fs i) r) contents 0))
       end
   end.
 
@@ -273,11 +279,22 @@ Definition has_opts (cs : list c10_caller) (i : nat) : bool :=
     8 = a caller inside the premise of [c10_transparent_filters_get_their_own_rows] was observed to get
     another result on the batching context than alone (the theorem's conclusion, checked on the
     implementation's outputs under the model's premise). *)
-Fixpoint premise_conclusion (t : table) (fs : list filter) (batched single : list (nat * list nat)) : bool :=
+Fixpoint premise_conclusion (fixed : bool) (t : table) (fs : list filter) (batched single : list (nat * list nat)) : bool :=
   match fs, batched, single with
   | f :: fs', b :: bs, s :: ss =>
-      (negb (filter_transparent t f) || result_eqb b s) && premise_conclusion t fs' bs ss
+      (negb (transparent_of fixed t f) || result_eqb b s) && premise_conclusion fixed t fs' bs ss
   | _, _, _ => true
+  end.
+
+(** On a repaired tree: the rows a plain Query without options received on the batching context are among the
+    rows it received alone -- for every filter ([c10_repaired_never_hands_foreign_rows] on the observations). *)
+Fixpoint no_foreign_rows (cs : list c10_caller) (i : nat) (batched single : list (nat * list nat)) : bool :=
+  match batched, single with
+  | b :: bs, s :: ss =>
+      (has_opts cs i || nth_caller_row cs i || negb (Nat.eqb (fst b) 0) || negb (Nat.eqb (fst s) 0)
+       || forallb (fun k => existsb (Nat.eqb k) (snd s)) (snd b))
+      && no_foreign_rows cs (S i) bs ss
+  | _, _ => true
   end.
 
 Definition c10_check (c : c10_case) : list nat :=
@@ -289,7 +306,7 @@ Definition c10_check (c : c10_case) : list nat :=
         (map (fun b => obs_of_event (EStmt (batch_stmt t (map (nth_filter fs) b)))) (q_arrival c)
          ++ map (own_stmt t fs cs) (List.filter (has_opts cs) (seq 0 n)))
         (q_batched_stmts c) then [] else [1])
-  ++ (if results_agree (map (model_batched_rows t fs cs (q_arrival c) (q_contents c)) (seq 0 n)) (q_batched_rows c)
+  ++ (if results_agree (map (model_batched_rows (q_fixed c) t fs cs (q_arrival c) (q_contents c)) (seq 0 n)) (q_batched_rows c)
       then [] else [2])
   ++ (if obs_list_eqb (map (own_stmt t fs cs) (seq 0 n)) (q_single_stmts c) then [] else [3])
   ++ (if results_agree (map (model_single_rows t fs cs (q_contents c)) (seq 0 n)) (q_single_rows c) then [] else [4])
@@ -297,8 +314,9 @@ Definition c10_check (c : c10_case) : list nat :=
   ++ (if forallb (fun i => Bool.eqb (has_opts cs i)
                              (match batch_of (q_arrival c) i with None => true | Some _ => false end)) (seq 0 n)
       then [] else [6])
-  ++ (if bool_list_eqb (map (filter_transparent t) fs) (q_transparent c) then [] else [7])
-  ++ (if premise_conclusion t fs (q_batched_rows c) (q_single_rows c) then [] else [8]).
+  ++ (if bool_list_eqb (map (transparent_of (q_fixed c) t) fs) (q_transparent c) then [] else [7])
+  ++ (if premise_conclusion (q_fixed c) t fs (q_batched_rows c) (q_single_rows c) then [] else [8])
+  ++ (if negb (q_fixed c) || no_foreign_rows cs 0 (q_batched_rows c) (q_single_rows c) then [] else [9]).
 
 Fixpoint mismatches_c10 (_ : nat) (cs : list (nat * c10_case)) : list (nat * list nat) :=
   match cs with
